@@ -11,7 +11,29 @@
    An index out of range raises IndexError. Fail-closed choices: a type error, an unknown primitive, an
    unbound name, an int subtraction that would go negative and a division by zero are all [Stuck] (the
    refinement theorems prove the translated programs never get there).
-   Fuel bounds the number of BODY EXECUTIONS of each while loop (the test itself is free), nothing else. *)
+   Fuel bounds the number of BODY EXECUTIONS of each while loop (the test itself is free), nothing else.
+
+   EXTENSIONS (for the ties of further functions; the constructors above them are unchanged):
+   [SFor x it body]   `for x in it:` - [it] is evaluated ONCE; it must be a list value (e.g. what the primitive
+                      "range" returned), anything else is handed to the primitive "iter", which must return a
+                      list. The body runs once per element with x bound to it; Normal / Continue go on to the
+                      next element, Return / Raise / Stuck / OutOfFuel end the loop. No fuel is consumed. With
+                      an empty list x stays as it was (unbound if it was). There is no `break` and no for-else.
+   [STry body handlers fin]   `try: body except N1: h1 except N2: h2 ... finally: fin` ([fin] = SSkip when there
+                      is no finally, [handlers] = [] when there is no except). An exception x raised by the
+                      body is handled by the FIRST handler whose name matches: the same name, one of the
+                      catch-alls "" (bare except) / "Exception" / "BaseException", otherwise the primitive
+                      "issubclass" [VStr x; VStr name] decides (unknown: Stuck). The handler runs in the
+                      environment AS IT WAS WHEN THE EXCEPTION WAS RAISED ([final_env], below); an exception
+                      raised by a handler is not handled by its siblings. [fin] runs after a Normal, Continue,
+                      Return or Raise outcome of body/handler (not after Stuck / OutOfFuel, which are not Python
+                      outcomes) in the environment where that outcome arose; if [fin] ends normally the
+                      outcome stands (with fin's environment), otherwise fin's own outcome (Return, Raise,
+                      Continue, Stuck, OutOfFuel) REPLACES it, as in Python.
+   Outcomes do not carry the environment of a Raise / Return, so the interpreter has a companion
+   [final_env s fuel e] = the environment in which the execution of s from e stopped (for a Normal / Continue
+   outcome it is the environment the outcome carries: [final_env_normal]). It is defined by mutual recursion
+   with [exec] and is only ever evaluated for the body and handlers of an STry. *)
 From Coq Require Import String List Bool Arith Lia.
 Import ListNotations.
 Open Scope string_scope.
@@ -46,7 +68,9 @@ Inductive stmt :=
 | SContinue
 | SRaise (exn : string) (args : list expr)
 | SReturn (e : expr)
-| SExpr (e : expr).
+| SExpr (e : expr)
+| SFor (x : string) (iter : expr) (body : stmt)                            (* for x in iter: body *)
+| STry (body : stmt) (handlers : list (string * stmt)) (fin : stmt).      (* try/except.../finally *)
 
 Definition cmp_name (op : cmpop) : string :=
   match op with CEq => "==" | CNe => "!=" | CLt => "<" | CGt => ">" | CLe => "<=" | CGe => ">=" end.
@@ -108,6 +132,14 @@ Fixpoint assigned (s : stmt) (acc : list string) : list string :=
   | SSeq a b => assigned b (assigned a acc)
   | SIf _ a b => assigned b (assigned a acc)
   | SWhile _ b => assigned b acc
+  | SFor x _ b => assigned b (add_name x acc)
+  | STry b hs f =>
+      assigned f
+        ((fix go (hs : list (string * stmt)) (acc : list string) : list string :=
+            match hs with
+            | [] => acc
+            | (_, h) :: t => go t (assigned h acc)
+            end) hs (assigned b acc))
   | _ => acc
   end.
 
@@ -237,7 +269,77 @@ Section Sem.
     | Bad => Stuck
     end.
 
-  Fixpoint exec (s : stmt) (fuel : nat) (e : env) : outcome :=
+  (* ---- for loops: one body execution per element, no fuel ---- *)
+  Definition iter_list (v : val) : res (list val) :=
+    match v with
+    | VList l => Ok l
+    | _ => match P "iter" [v] [] with Ok (VList l) => Ok l | Ok _ => Bad | Exc x => Exc x | Bad => Bad end
+    end.
+
+  Fixpoint for_loop (x : string) (body : env -> outcome) (l : list val) (e : env) : outcome :=
+    match l with
+    | [] => Normal e
+    | v :: t =>
+        match body (upd x v e) with
+        | Normal e' | Continue e' => for_loop x body t e'
+        | o => o
+        end
+    end.
+
+  (* ---- where an execution stopped: companions of while_loop / for_loop (see final_env) ---- *)
+  Fixpoint while_env (test : env -> res bool) (body : env -> outcome) (benv : env -> env) (n : nat) (e : env) : env :=
+    match test e with
+    | Ok true =>
+        match n with
+        | O => e
+        | S n' =>
+            match body e with
+            | Normal e' | Continue e' => while_env test body benv n' e'
+            | _ => benv e
+            end
+        end
+    | _ => e
+    end.
+
+  Fixpoint for_env (x : string) (body : env -> outcome) (benv : env -> env) (l : list val) (e : env) : env :=
+    match l with
+    | [] => e
+    | v :: t =>
+        match body (upd x v e) with
+        | Normal e' | Continue e' => for_env x body benv t e'
+        | _ => benv (upd x v e)
+        end
+    end.
+
+  (* ---- try ---- *)
+  (* does `except name:` handle the exception exn? *)
+  Definition exn_matches (name exn : string) : res bool :=
+    if String.eqb name exn then Ok true
+    else if String.eqb name "" then Ok true
+    else if String.eqb name "Exception" then Ok true
+    else if String.eqb name "BaseException" then Ok true
+    else match P "issubclass" [VStr exn; VStr name] [] with Ok (VBool b) => Ok b | _ => Bad end.
+
+  (* the finally clause [fin], after body/handlers ended with outcome o in environment e2 *)
+  Definition try_finish (o : outcome) (e2 : env) (fin : env -> outcome) : outcome :=
+    match o with
+    | Normal e' => fin e'
+    | Continue e' => match fin e' with Normal e3 => Continue e3 | o' => o' end
+    | Return v => match fin e2 with Normal _ => Return v | o' => o' end
+    | Raise x => match fin e2 with Normal _ => Raise x | o' => o' end
+    | Stuck => Stuck
+    | OutOfFuel => OutOfFuel
+    end.
+
+  Definition try_finish_env (o : outcome) (e2 : env) (fenv : env -> env) : env :=
+    match o with
+    | Normal e' | Continue e' => fenv e'
+    | Return _ | Raise _ => fenv e2
+    | Stuck | OutOfFuel => e2
+    end.
+
+  (* [exec]: the outcome; [final_env]: the environment in which the execution stopped *)
+  Fixpoint exec (s : stmt) (fuel : nat) (e : env) {struct s} : outcome :=
     match s with
     | SSkip => Normal e
     | SAssign x a =>
@@ -266,6 +368,73 @@ Section Sem.
         match eval e a with Ok v => Return v | Exc n => Raise n | Bad => Stuck end
     | SExpr a =>
         match eval e a with Ok _ => Normal e | Exc n => Raise n | Bad => Stuck end
+    | SFor x it b =>
+        match bind (eval e it) iter_list with
+        | Ok l => for_loop x (fun e' => exec b fuel e') l e
+        | Exc n => Raise n
+        | Bad => Stuck
+        end
+    | STry b hs f =>
+        let r1 := (exec b fuel e, final_env b fuel e) in
+        let r2 :=
+          match fst r1 with
+          | Raise x =>
+              (fix find (hs : list (string * stmt)) : outcome * env :=
+                 match hs with
+                 | [] => r1
+                 | (n, h) :: t =>
+                     match exn_matches n x with
+                     | Ok true => (exec h fuel (snd r1), final_env h fuel (snd r1))
+                     | Ok false => find t
+                     | _ => (Stuck, snd r1)
+                     end
+                 end) hs
+          | _ => r1
+          end in
+        try_finish (fst r2) (snd r2) (fun e' => exec f fuel e')
+    end
+  with final_env (s : stmt) (fuel : nat) (e : env) {struct s} : env :=
+    match s with
+    | SSeq a b =>
+        match exec a fuel e with Normal e' => final_env b fuel e' | _ => final_env a fuel e end
+    | SIf c a b =>
+        match eval_truth e c with
+        | Ok true => final_env a fuel e
+        | Ok false => final_env b fuel e
+        | _ => e
+        end
+    | SWhile c b =>
+        while_env (fun e' => eval_truth e' c) (fun e' => exec b fuel e') (fun e' => final_env b fuel e') fuel e
+    | SFor x it b =>
+        match bind (eval e it) iter_list with
+        | Ok l => for_env x (fun e' => exec b fuel e') (fun e' => final_env b fuel e') l e
+        | _ => e
+        end
+    | STry b hs f =>
+        let r1 := (exec b fuel e, final_env b fuel e) in
+        let r2 :=
+          match fst r1 with
+          | Raise x =>
+              (fix find (hs : list (string * stmt)) : outcome * env :=
+                 match hs with
+                 | [] => r1
+                 | (n, h) :: t =>
+                     match exn_matches n x with
+                     | Ok true => (exec h fuel (snd r1), final_env h fuel (snd r1))
+                     | Ok false => find t
+                     | _ => (Stuck, snd r1)
+                     end
+                 end) hs
+          | _ => r1
+          end in
+        try_finish_env (fst r2) (snd r2) (fun e' => final_env f fuel e')
+    | SAssign x a => match eval e a with Ok v => upd x v e | _ => e end
+    | SUnpack xs a =>
+        match eval e a with
+        | Ok (VList vs) => match assign_all xs vs e with Some e' => e' | None => e end
+        | _ => e
+        end
+    | SSkip | SContinue | SRaise _ _ | SReturn _ | SExpr _ => e
     end.
 
   Fixpoint exec_list (l : list stmt) (fuel : nat) (e : env) : outcome :=
@@ -340,6 +509,289 @@ Section Sem.
     | Bad => Stuck
     end.
   Proof. intros test body n e. destruct n; reflexivity. Qed.
+
+  (* ---- a block = prefix ; k-th statement ; suffix (for any loop, not only the first while) ---- *)
+  Lemma exec_nth_split : forall s k st fuel e,
+    nth_error (spine s) k = Some st ->
+    exec s fuel e =
+    match exec_list (firstn k (spine s)) fuel e with
+    | Normal e1 => match exec st fuel e1 with Normal e2 => exec_list (skipn (S k) (spine s)) fuel e2 | o => o end
+    | o => o
+    end.
+  Proof.
+    intros s k st fuel e H. rewrite exec_spine.
+    assert (Hl : spine s = (firstn k (spine s) ++ st :: skipn (S k) (spine s))%list).
+    { revert k H. generalize (spine s) as l. induction l as [|a t IH]; intros k H.
+      - destruct k; discriminate.
+      - destruct k as [|k]; cbn [nth_error] in H.
+        + inversion H; subst. reflexivity.
+        + cbn [firstn skipn app]. f_equal. apply IH. exact H. }
+    rewrite Hl at 1. rewrite exec_list_app. reflexivity.
+  Qed.
+
+  (* ---- for loops ---------------------------------------------------------------------------- *)
+  (* the environment an iteration hands to the next one *)
+  Definition normal_env (o : outcome) : option env :=
+    match o with Normal e | Continue e => Some e | _ => None end.
+
+  Lemma exec_for : forall x it b fuel e,
+    exec (SFor x it b) fuel e =
+    match bind (eval e it) iter_list with
+    | Ok l => for_loop x (fun e' => exec b fuel e') l e
+    | Exc n => Raise n
+    | Bad => Stuck
+    end.
+  Proof. reflexivity. Qed.
+
+  Lemma exec_for_list : forall x it b fuel e l,
+    eval e it = Ok (VList l) ->
+    exec (SFor x it b) fuel e = for_loop x (fun e' => exec b fuel e') l e.
+  Proof. intros x it b fuel e l H. rewrite exec_for, H. reflexivity. Qed.
+
+  Lemma for_loop_nil : forall x body e, for_loop x body [] e = Normal e.
+  Proof. reflexivity. Qed.
+
+  Lemma for_loop_cons : forall x body v t e,
+    for_loop x body (v :: t) e =
+    match body (upd x v e) with
+    | Normal e' | Continue e' => for_loop x body t e'
+    | o => o
+    end.
+  Proof. reflexivity. Qed.
+
+  Lemma for_loop_app : forall x body l1 l2 e,
+    for_loop x body (l1 ++ l2)%list e =
+    match for_loop x body l1 e with Normal e' => for_loop x body l2 e' | o => o end.
+  Proof.
+    intros x body l1 l2. induction l1 as [|v t IH]; intros e.
+    - reflexivity.
+    - cbn [app for_loop]. destruct (body (upd x v e)); try reflexivity; apply IH.
+  Qed.
+
+  (* a for loop never ends with Continue *)
+  Lemma for_loop_not_continue : forall x body l e e', for_loop x body l e <> Continue e'.
+  Proof.
+    intros x body l. induction l as [|v t IH]; intros e e'.
+    - discriminate.
+    - cbn [for_loop]. destruct (body (upd x v e)) eqn:E; try discriminate; apply IH.
+  Qed.
+
+  (* THE INDUCTION PRINCIPLE for a for loop over an arbitrary list: an invariant [I done e] (the elements
+     already processed, the environment between iterations) and a predicate Q on the outcome of the loop;
+     an iteration either keeps the invariant or ends the loop with an outcome satisfying Q *)
+  Lemma for_loop_inv_gen : forall (I : list val -> env -> Prop) (Q : outcome -> Prop) x body l e,
+    I [] e ->
+    (forall done v rest e1, l = (done ++ v :: rest)%list -> I done e1 ->
+       match body (upd x v e1) with
+       | Normal e2 | Continue e2 => I (done ++ [v])%list e2
+       | o => Q o
+       end) ->
+    (forall e', I l e' -> Q (Normal e')) ->
+    Q (for_loop x body l e).
+  Proof.
+    intros I Q x body l e H0 Hstep Hend.
+    assert (G : forall rest done e1, l = (done ++ rest)%list -> I done e1 -> Q (for_loop x body rest e1)).
+    { induction rest as [|v t IH]; intros done e1 Hl Hi.
+      - rewrite app_nil_r in Hl. subst done. apply Hend. exact Hi.
+      - cbn [for_loop]. specialize (Hstep done v t e1 Hl Hi).
+        destruct (body (upd x v e1)); try exact Hstep;
+          (apply (IH (done ++ [v])%list); [rewrite <- app_assoc; exact Hl | exact Hstep]). }
+    apply (G l [] e); [reflexivity | exact H0].
+  Qed.
+
+  (* the common case: every iteration goes on (Normal or Continue) *)
+  Lemma for_loop_inv : forall (I : list val -> env -> Prop) x body l e,
+    I [] e ->
+    (forall done v rest e1, l = (done ++ v :: rest)%list -> I done e1 ->
+       exists e2, normal_env (body (upd x v e1)) = Some e2 /\ I (done ++ [v])%list e2) ->
+    exists e', for_loop x body l e = Normal e' /\ I l e'.
+  Proof.
+    intros I x body l e H0 Hstep.
+    apply (for_loop_inv_gen I (fun o => exists e', o = Normal e' /\ I l e')); [exact H0 | | ].
+    - intros done v rest e1 Hl Hi. destruct (Hstep done v rest e1 Hl Hi) as (e2 & He2 & Hi2).
+      destruct (body (upd x v e1)); cbn [normal_env] in He2; try discriminate; inversion He2; subst; exact Hi2.
+    - intros e' Hi. exists e'. split; [reflexivity | exact Hi].
+  Qed.
+
+  (* a for loop whose iterations all go on is a fold *)
+  Lemma for_loop_fold : forall x body (step : val -> env -> env) l e,
+    (forall v e1, In v l -> normal_env (body (upd x v e1)) = Some (step v e1)) ->
+    for_loop x body l e = Normal (fold_left (fun e1 v => step v e1) l e).
+  Proof.
+    intros x body step l. induction l as [|v t IH]; intros e H.
+    - reflexivity.
+    - cbn [for_loop fold_left]. pose proof (H v e (or_introl eq_refl)) as Hv.
+      destruct (body (upd x v e)); cbn [normal_env] in Hv; try discriminate; inversion Hv; subst;
+        apply IH; intros w e1 Hw; apply H; right; exact Hw.
+  Qed.
+
+  (* ---- where an execution stopped ----------------------------------------------------------- *)
+  Lemma while_env_unfold : forall test body benv n e,
+    while_env test body benv n e =
+    match test e with
+    | Ok true =>
+        match n with
+        | O => e
+        | S n' =>
+            match body e with
+            | Normal e' | Continue e' => while_env test body benv n' e'
+            | _ => benv e
+            end
+        end
+    | _ => e
+    end.
+  Proof. intros test body benv n e. destruct n; reflexivity. Qed.
+
+  Lemma while_env_normal : forall test body benv n e e',
+    normal_env (while_loop test body n e) = Some e' -> while_env test body benv n e = e'.
+  Proof.
+    intros test body benv. induction n as [|n IH]; intros e e' H;
+      rewrite while_loop_unfold in H; rewrite while_env_unfold;
+      destruct (test e) as [[|]| |]; cbn [normal_env] in H; try discriminate;
+      try (inversion H; reflexivity).
+    destruct (body e); cbn [normal_env] in H; try discriminate; apply IH; exact H.
+  Qed.
+
+  Lemma for_env_normal : forall x body benv l e e',
+    normal_env (for_loop x body l e) = Some e' -> for_env x body benv l e = e'.
+  Proof.
+    intros x body benv. induction l as [|v t IH]; intros e e' H; cbn [for_loop for_env] in *.
+    - cbn [normal_env] in H. inversion H. reflexivity.
+    - destruct (body (upd x v e)); cbn [normal_env] in H; try discriminate; apply IH; exact H.
+  Qed.
+
+  Lemma try_finish_normal : forall o e2 (fin : env -> outcome) (fenv : env -> env) e',
+    (forall e1 e3, normal_env (fin e1) = Some e3 -> fenv e1 = e3) ->
+    normal_env (try_finish o e2 fin) = Some e' -> try_finish_env o e2 fenv = e'.
+  Proof.
+    intros o e2 fin fenv e' Hf H. destruct o as [e1|e1|v|x| |]; cbn [try_finish try_finish_env] in *.
+    - apply Hf. exact H.
+    - apply Hf. destruct (fin e1); cbn [normal_env] in *; try discriminate; exact H.
+    - apply Hf. destruct (fin e2); cbn [normal_env] in *; try discriminate; exact H.
+    - apply Hf. destruct (fin e2); cbn [normal_env] in *; try discriminate; exact H.
+    - discriminate.
+    - discriminate.
+  Qed.
+
+  (* when the outcome carries an environment, that is where the execution stopped *)
+  Lemma final_env_normal : forall s fuel e e',
+    normal_env (exec s fuel e) = Some e' -> final_env s fuel e = e'.
+  Proof.
+    induction s; intros fuel e0 e' H; cbn [exec final_env] in *.
+    - inversion H. reflexivity.
+    - destruct (eval e0 e); cbn [normal_env] in H; try discriminate. inversion H. reflexivity.
+    - destruct (eval e0 e) as [[]| |]; cbn [normal_env] in H; try discriminate.
+      destruct (assign_all xs l e0); cbn [normal_env] in H; try discriminate. inversion H. reflexivity.
+    - destruct (exec s1 fuel e0) eqn:E1; cbn [normal_env] in H; try discriminate.
+      + apply IHs2. exact H.
+      + apply IHs1. rewrite E1. exact H.
+    - destruct (eval_truth e0 c) as [[|]| |]; cbn [normal_env] in H; try discriminate.
+      + apply IHs1. exact H.
+      + apply IHs2. exact H.
+    - apply while_env_normal. exact H.
+    - inversion H. reflexivity.
+    - destruct (map_res (eval e0) args); discriminate.
+    - destruct (eval e0 e); discriminate.
+    - destruct (eval e0 e); cbn [normal_env] in H; try discriminate. inversion H. reflexivity.
+    - destruct (bind (eval e0 iter) iter_list); cbn [normal_env] in H; try discriminate.
+      apply for_env_normal. exact H.
+    - revert H. apply try_finish_normal. intros e1 e3. apply IHs2.
+  Qed.
+
+  (* ---- try ---------------------------------------------------------------------------------- *)
+  (* the handlers for exception x, after the body ended in r1 = (Raise x, environment at the raise) *)
+  Fixpoint run_handlers (hs : list (string * stmt)) (x : string) (fuel : nat) (r1 : outcome * env) : outcome * env :=
+    match hs with
+    | [] => r1
+    | (n, h) :: t =>
+        match exn_matches n x with
+        | Ok true => (exec h fuel (snd r1), final_env h fuel (snd r1))
+        | Ok false => run_handlers t x fuel r1
+        | _ => (Stuck, snd r1)
+        end
+    end.
+
+  (* body and handlers: the outcome, and the environment in which it arose *)
+  Definition try_body (b : stmt) (hs : list (string * stmt)) (fuel : nat) (e : env) : outcome * env :=
+    match exec b fuel e with
+    | Raise x => run_handlers hs x fuel (Raise x, final_env b fuel e)
+    | o => (o, final_env b fuel e)
+    end.
+
+  Lemma try_body_unfold : forall b hs fuel e,
+    (let r1 := (exec b fuel e, final_env b fuel e) in
+     match fst r1 with
+     | Raise x =>
+         (fix find (hs : list (string * stmt)) : outcome * env :=
+            match hs with
+            | [] => r1
+            | (n, h) :: t =>
+                match exn_matches n x with
+                | Ok true => (exec h fuel (snd r1), final_env h fuel (snd r1))
+                | Ok false => find t
+                | _ => (Stuck, snd r1)
+                end
+            end) hs
+     | _ => r1
+     end) = try_body b hs fuel e.
+  Proof.
+    intros b hs fuel e. unfold try_body. cbv zeta. cbn [fst snd].
+    destruct (exec b fuel e) as [e1|e1|v|x| |]; try reflexivity.
+    induction hs as [|[n h] t IH]; [reflexivity|].
+    cbn [run_handlers snd]. destruct (exn_matches n x) as [[|]| |]; try reflexivity. exact IH.
+  Qed.
+
+  Lemma exec_try : forall b hs f fuel e,
+    exec (STry b hs f) fuel e =
+    try_finish (fst (try_body b hs fuel e)) (snd (try_body b hs fuel e)) (fun e' => exec f fuel e').
+  Proof. intros b hs f fuel e. rewrite <- try_body_unfold. reflexivity. Qed.
+
+  Lemma final_env_try : forall b hs f fuel e,
+    final_env (STry b hs f) fuel e =
+    try_finish_env (fst (try_body b hs fuel e)) (snd (try_body b hs fuel e)) (fun e' => final_env f fuel e').
+  Proof. intros b hs f fuel e. rewrite <- try_body_unfold. reflexivity. Qed.
+
+  (* the body ended without an exception: only the finally clause is left *)
+  Lemma exec_try_normal : forall b hs f fuel e e1,
+    exec b fuel e = Normal e1 -> exec (STry b hs f) fuel e = exec f fuel e1.
+  Proof. intros b hs f fuel e e1 H. rewrite exec_try. unfold try_body. rewrite H. reflexivity. Qed.
+
+  Lemma exec_try_continue : forall b hs f fuel e e1,
+    exec b fuel e = Continue e1 ->
+    exec (STry b hs f) fuel e = match exec f fuel e1 with Normal e3 => Continue e3 | o => o end.
+  Proof. intros b hs f fuel e e1 H. rewrite exec_try. unfold try_body. rewrite H. reflexivity. Qed.
+
+  Lemma exec_try_return : forall b hs f fuel e v,
+    exec b fuel e = Return v ->
+    exec (STry b hs f) fuel e = match exec f fuel (final_env b fuel e) with Normal _ => Return v | o => o end.
+  Proof. intros b hs f fuel e v H. rewrite exec_try. unfold try_body. rewrite H. reflexivity. Qed.
+
+  Lemma exec_try_raise : forall b hs f fuel e x,
+    exec b fuel e = Raise x ->
+    exec (STry b hs f) fuel e =
+    let r := run_handlers hs x fuel (Raise x, final_env b fuel e) in
+    try_finish (fst r) (snd r) (fun e' => exec f fuel e').
+  Proof. intros b hs f fuel e x H. rewrite exec_try. unfold try_body. rewrite H. reflexivity. Qed.
+
+  (* try/finally without handlers: the exception goes on after the finally clause *)
+  Lemma exec_try_finally_raise : forall b f fuel e x,
+    exec b fuel e = Raise x ->
+    exec (STry b [] f) fuel e = match exec f fuel (final_env b fuel e) with Normal _ => Raise x | o => o end.
+  Proof. intros b f fuel e x H. rewrite (exec_try_raise _ _ _ _ _ _ H). reflexivity. Qed.
+
+  (* try/except without finally: the outcome of body/handlers stands *)
+  Lemma exec_try_no_finally : forall b hs fuel e,
+    exec (STry b hs SSkip) fuel e = fst (try_body b hs fuel e).
+  Proof.
+    intros b hs fuel e. rewrite exec_try. destruct (fst (try_body b hs fuel e)); reflexivity.
+  Qed.
+
+  Lemma stuck_or_fuel_try : forall b hs f fuel e,
+    exec b fuel e = Stuck \/ exec b fuel e = OutOfFuel -> exec (STry b hs f) fuel e = exec b fuel e.
+  Proof.
+    intros b hs f fuel e [H|H]; rewrite exec_try; unfold try_body; rewrite H; reflexivity.
+  Qed.
+
 End Sem.
 
 Arguments VSig {V}. Arguments VBool {V}. Arguments VNat {V}. Arguments VStr {V}. Arguments VNone {V}.
@@ -350,3 +802,6 @@ Arguments upd {V}. Arguments empty_env {V}. Arguments lookup {V}. Arguments env_
 Arguments truthy {V}. Arguments eval {V}. Arguments eval_truth {V}. Arguments exec {V}. Arguments exec_list {V}.
 Arguments while_loop {V}. Arguments assign_all {V}.
 Arguments do_cmp {V}. Arguments do_arith {V}. Arguments do_index {V}.
+Arguments final_env {V}. Arguments for_loop {V}. Arguments for_env {V}. Arguments while_env {V}.
+Arguments iter_list {V}. Arguments exn_matches {V}. Arguments try_finish {V}. Arguments try_finish_env {V}.
+Arguments normal_env {V}. Arguments run_handlers {V}. Arguments try_body {V}.
